@@ -137,7 +137,7 @@ def main(ctx):
         ctx.violation("build of harness/driver failed (cannot tie the model to /repo)", "build failure\n", found_input=False)
         ctx.finish()
     max_oracle_n = 12 if ctx.thorough else 10
-    total = 40000 if ctx.thorough else 6000
+    total = 60000 if ctx.thorough else 24000
     drv = [("equiv", ""), ("equiv-spec", "--equiv-max-n %d" % max_oracle_n)]
     runs = [("random", run_mode(ctx, h, d, "equiv", total, drv_modes=drv, tag="equiv")),
             ("exhaustive", run_mode(ctx, h, d, "equiv", 0, extra="--exhaustive %d" % (4 if ctx.thorough else 3),
